@@ -21,7 +21,7 @@ use crate::tape::{hash_str, mix};
 pub const VERIF_DIR: &str = "/verif";
 /// Bumped whenever a generator changes the meaning of tapes (stored reproducers / regression inputs
 /// then have to be regenerated: `regen_reproducers.py`, `make_seed_regressions.sh`).
-pub const GEN_VERSION: u32 = 13;
+pub const GEN_VERSION: u32 = 14;
 
 #[derive(Clone, Debug, PartialEq, Eq)]
 pub struct Input {
@@ -319,7 +319,7 @@ fn emit(v: &Value) {
 
 /// Runs the campaign of one worker process and prints JSON lines.
 pub fn worker(prop: &dyn Property, tier: Tier, seed: u64, shard: (u64, u64), cases_override: Option<u64>) {
-    let ctx = Ctx { tier, known: known_sigs(prop.id()), want_sample: false, strict: false };
+    let ctx = Ctx { tier, known: known_sigs(prop.saved_id()), want_sample: false, strict: false };
     let acc = RefCell::new(Acc::default());
     let (i, k) = shard;
 
